@@ -52,6 +52,15 @@ CLAIMED = {
             "through HashMap with the key unchanged.",
             "std's Hash/Eq agreement for primitives and String is trusted; " + TRUST,
             "DESIGN.md §3 C10"),
+    "C08": ("panic-site audit over the run-time call graph: MIR asserts and panicking callees discharged by dominating "
+            "linear guard facts, type rule, RefCell live-range rule, linked rule instances, or a reviewed justification",
+            "Decides the absence of panic paths in everything reachable at run time (VM, 47 builtins, packet code, "
+            "Display/Eq/Hash/serialisation impls, the stream loop): every one of ~770 panic-capable sites is enumerated and "
+            "must be discharged or justified; a new unguarded index, unwrap, expect, division or borrow is a violation.",
+            "Justified sites rest on stated invariants (stack discipline of compiler-emitted code, sp <= STACK_SIZE) "
+            "reviewed by reading and tied to guard fragments that must still be present; Rust-stack exhaustion by data "
+            "nesting and allocation failure are not decided; " + TRUST,
+            "DESIGN.md §2.1, §3 C08"),
 }
 
 NOT_APPLICABLE = {
